@@ -125,6 +125,66 @@ def request (d : Defects) (src : Src) (ft : FT) (nullable : Bool) (pv : PV) : Ve
   | .admitted => (.admitted, some (bind d ft pv))
   | v => (v, none)
 
+/-! ### parameters on system fields (`SYSTEM_FIELDS`, data_model_parser.rs:21-186; `Field::get_variable_type`) -/
+
+/-- the system fields a request may name with a parameter (`sys_peer` / `sys_room` are entity typed: no variable) -/
+inductive SysField where
+  | id | roomId | cdate | mdate | entity | json | binary | verifyingKey | signature
+deriving Repr, DecidableEq
+
+/-- the `VariableType`s of the system fields: `Binary(nullable)`, `Integer(false)`, `String(false)` -/
+inductive VT where
+  | binary (nullable : Bool) | int | str
+deriving Repr, DecidableEq
+
+def sysVarType : SysField → VT
+  | .id => .binary false
+  | .roomId => .binary true            -- the only nullable binary variable
+  | .cdate => .int | .mdate => .int
+  | .entity => .str | .json => .str
+  | .binary => .binary false | .verifyingKey => .binary false | .signature => .binary false
+
+/-- `Field.mutable`: may a mutation name the field? -/
+def sysMutable : SysField → Bool
+  | .id => true | .roomId => true | .binary => true
+  | _ => false
+
+/-- `validate_params` on one parameter: the verdict, and the value it puts back into the parameter map (a valid
+    base64 string becomes `Binary`); `none` = nothing is put back -/
+def validateParam (vt : VT) (pv : PV) : Verdict × Option PV :=
+  match vt, pv with
+  | .binary n, .null => if n then (.admitted, some .null) else (.notNullable, none)
+  | .binary _, .binary b => if b then (.admitted, some (.binary b)) else (.invalidBase64, none)
+  | .binary _, .str b _ => if b then (.admitted, some (.binary b)) else (.invalidBase64, none)
+  | .int, .int => (.admitted, some .int)
+  | .int, .null => (.notNullable, none)
+  | .str, .str b j => (.admitted, some (.str b j))
+  | .str, .null => (.notNullable, none)
+  | _, _ => (.conflictingParameterType, none)
+
+inductive Ctx where
+  | mutation   -- `field: $p`
+  | filter     -- `field = $p`
+deriving Repr, DecidableEq
+
+inductive SysOutcome where
+  | refused (v : Verdict)
+  | defined           -- the request goes on with the parameter bound: a result or an error, no panic
+  | panic             -- the binding step looks the parameter up and does not find it
+deriving Repr, DecidableEq
+
+/-- a parameter on a system field: the mutation parser refuses the non mutable ones; the binding step
+    (`MutationQuery::base64_field`, `params.get(var).unwrap()`) needs the parameter in the map -/
+def sysRequest (ctx : Ctx) (f : SysField) (pv : PV) : SysOutcome :=
+  if ctx == .mutation && !sysMutable f then .refused .invalidQuery else
+  match validateParam (sysVarType f) pv with
+  | (.admitted, some _) => .defined
+  | (.admitted, none) => .panic
+  | (v, _) => .refused v
+
+def allSysFields : List SysField := [.id, .roomId, .cdate, .mdate, .entity, .json, .binary, .verifyingKey, .signature]
+def allVT : List VT := [.binary false, .binary true, .int, .str]
+
 def allFT : List FT := [.bool, .float, .b64, .int, .str, .json]
 def allPV : List PV :=
   [.bool, .int, .float, .floatNaN, .str false false, .str false true, .str true false, .str true true,
